@@ -54,4 +54,9 @@ struct rule *gh_sr;            /* the start rule $S : <start> $eof */
 #define GH_NAMED(e, i) (GH_NAMED1 (e, 0, i) | GH_NAMED1 (e, 1, i) | GH_NAMED1 (e, 2, i) | GH_NAMED1 (e, 3, i) | GH_NAMED1 (e, 4, i) | GH_NAMED1 (e, 5, i) | GH_NAMED1 (e, 6, i) | GH_NAMED1 (e, 7, i))
 #define GH_ORD(e) ((e) >= gh_rl || (rule->order[e] >= -1 && rule->order[e] < i && (GH_NAMED (e, i) | (rule->order[e] == -1))))
 #define GH_CNT(i) (GH_CNT1 (0, i) + GH_CNT1 (1, i) + GH_CNT1 (2, i) + GH_CNT1 (3, i) + GH_CNT1 (4, i) + GH_CNT1 (5, i) + GH_CNT1 (6, i) + GH_CNT1 (7, i))
+/* check_grammar (RG.check): the nonterminal table and what it answered last */
+struct symb *gh_nts; int gh_nnt, gh_ni;     /* harness array of nonterminal records, their number, ghost index */
+struct symb *gh_start;                      /* start symbol of the user grammar */
+int gh_ng_hit, gh_ng_der, gh_ng_acc, gh_ng_loop;
+extern int gh_flags1, gh_flags2, gh_ff;
 #endif
